@@ -29,7 +29,8 @@ def basis_part(rep, rng, runq, todo, quick):
     from FDApy.representation.argvals import DenseArgvals
     fams = ["fourier", "bsplines", "legendre", "wiener"]
     grids = [np.linspace(0, 1, 21), np.unique(np.concatenate([[0, 1], np.round(np.sort(np.random.default_rng(3).uniform(0, 1, 17)) * 64) / 64]))]
-    for fam, gi in itertools.product(fams, range(2)):
+    grids.append(np.unique(np.round(np.concatenate([[2.0, 5.0], np.sort(rng.uniform(2, 5, 14))]) * 32) / 32))   # domain != [0,1]
+    for fam, gi in itertools.product(fams, range(3)):
         t = grids[gi]
         K = 4 if fam == "bsplines" else int(rng.integers(3, 6))
         n = int(rng.integers(2, 6))
@@ -42,7 +43,7 @@ def basis_part(rep, rng, runq, todo, quick):
             grid_vals = np.asarray(bd.to_grid().values, float)
         sc = max(1.0, float(np.max(np.abs(grid_vals))))
         key = ("basis", fam, gi, coef.tobytes())
-        opts = {"part": "basis", "family": fam, "grid": "uniform" if gi == 0 else "non-uniform", "n_functions": K, "n_obs": n}
+        opts = {"part": "basis", "family": fam, "grid": ["uniform", "non-uniform", "non-uniform on [2,5]"][gi], "n_functions": K, "n_obs": n}
         tq = runq.add(f"mclose {C.qlit(1e-10 * sc)} (to_grid opsQ {len(t)}%nat {C.qmat(Phi)} {C.qmat(coef)}) {C.qmat(grid_vals)}")
         todo.append((tq, "to_grid = coefficients times basis functions", key, opts))
         dgrid = fd.dense(t, grid_vals)
@@ -74,10 +75,14 @@ def basis_part(rep, rng, runq, todo, quick):
                 if np.all(np.asarray(dgrid.norm()) > 1e-8):
                     if np.max(np.abs(np.asarray(bd.normalize().to_grid().values) - np.asarray(dgrid.normalize().values))) > 1e-8 * sc:
                         bad.append("normalisation does not commute with evaluation")
-                wb = float(BasisFunctionalData(basis=basis, coefficients=coef.copy()).rescale()[1])
-                wg = float(dgrid.rescale()[1])
-                if abs(wb - wg) > 1e-8 * sc * sc:
-                    bad.append(f"rescaling weight from coefficients {wb!r} differs from the evaluated curves {wg!r}")
+                for kw in ({}, {"use_argvals_stand": True}, {"method_integration": "simpson"}):
+                    rb_, wb = BasisFunctionalData(basis=basis, coefficients=coef.copy()).rescale(**kw)
+                    rg_, wg = dgrid.rescale(**kw)
+                    wb, wg = float(wb), float(wg)
+                    if abs(wb - wg) > 1e-8 * sc * sc * max(1.0, float(np.ptp(t))):
+                        bad.append(f"rescaling weight {kw} from coefficients {wb!r} differs from the evaluated curves {wg!r}")
+                    elif wg > 1e-12 and np.max(np.abs(np.asarray(rb_.to_grid().values) - np.asarray(rg_.values))) > 1e-8 * sc / min(1.0, np.sqrt(wg)):
+                        bad.append(f"rescaling {kw} does not commute with evaluation")
                 if n >= 2:
                     cbraw = np.asarray(bd.covariance().to_grid().values)[0]
                     for (s_, t_) in ((0, len(t) - 1), (len(t) // 2, len(t) // 3)):
